@@ -286,20 +286,7 @@ Definition of_arr (r : res arr) : sx :=
   end.
 Definition of_shape (r : res (list Z)) : sx := match r with Ok s => L [I 1; of_Zs s] | Err => L [I 0] end.
 
-(* (shape k1 ts dt k2) -> (model spec shape-property dtype-property), dataset = elements of dtype dt labelled in C order *)
-Definition wire_5 (x : sx) : sx :=
-  match x with
-  | L [shape; k1; ts; I dt; k2] =>
-      let shape := to_Zs shape in let k1 := map to_aidx (to_list k1) in
-      let ts := map to_tr (to_list ts) in let k2 := map to_aidx (to_list k2) in
-      let ds := tree_map (enc_val dt) (arange shape 0) in
-      let spec := of_arr (spec_getitem shape ds k1 ts dt k2) in
-      match mk_lazy shape k1 ts dt with
-      | Err => L [L [I 0]; spec; L [I 0]; I 0]
-      | Ok li => L [of_arr (getitem li ds k2); spec; of_shape (lazy_shape li); I (lazy_dtype li)]
-      end
-  | _ => sx_err
-  end.
+(* wire_5 (the LazyIndexer case) lives in Model/LazyNd.v: it runs the N-d chunk loop *)
 
 (* differential of PySlice against Python: (n a b c) -> (ok start stop step positions) *)
 Definition wire_50 (x : sx) : sx :=
